@@ -229,6 +229,7 @@ impl Prop for C15 {
         for d in ["random", "polynomial", "dual-data", "dual2-data", "dual-abscissa", "dual2-abscissa", "python-layer", "dual-data-at-dual-abscissa", "dual2-data-at-dual2-abscissa", "basis-dual-abscissa", "basis-dual2-abscissa", "solved-again-on-same-object", "solved-on-object-created-with-coefficients", "mismatched-counts-rejected", "evaluate-before-solve-rejected"] {
             v.push(format!("check:{}", d));
         }
+        v.push("sites:interior-sites-not-in-ascending-order".to_string());
         for c in ["f64xF64", "f64xDual", "f64xDual2", "DualxF64", "DualxDual", "DualxDual2(refused)", "Dual2xF64", "Dual2xDual(refused)", "Dual2xDual2"] {
             v.push(format!("table:{}", c));
         }
@@ -238,7 +239,7 @@ impl Prop for C15 {
         tier.pick(200_000, 10_000_000)
     }
     fn rule(&self) -> String {
-        "Seeded splines of order 2..6 on knot vectors as in C14; site layouts: Greville, perturbed Greville, the first k sites bunched at the start of the first knot interval, repeated end sites with natural (2,2) / clamped (1,1) / mixed end-derivative conditions (the classical cubic layout with data at the interior knots), least squares with extra sites; collocation matrices pre-screened by their 1-norm condition number (<= 1e5, computed by an own Gauss-Jordan inversion; ill-conditioned draws skipped and counted). Data: random, polynomial of degree < k, Dual / Dual2 with one variable per datum. After csolve: interior sites and end conditions reproduced (also through the independent piecewise-polynomial basis oracle on the returned coefficients), polynomial data reproduced in value and all derivatives at knots, end points, neighbouring floats, midpoints and random points; sensitivity to datum j == value of the float spline solved on the unit vector e_j; Dual / Dual2 abscissae give the spline's own first / second derivative as sensitivities (with non-zero own Hessian of the abscissa); mismatched site counts (fewer sites, fewer or more values than sites, an extra site without least squares - through the core solver and the Python-facing solver of all three spline types) and evaluation before solving are errors; the 3x3 (spline type x abscissa type) table of mapped_value. distinct_nontrivial = distinct (k, layout, knot count) x case.".into()
+        "Seeded splines of order 2..6 on knot vectors as in C14; site layouts: Greville, perturbed Greville, the first k sites bunched at the start of the first knot interval, repeated end sites with natural (2,2) / clamped (1,1) / mixed end-derivative conditions (the classical cubic layout with data at the interior knots), least squares with extra sites; one case in three with the interior sites handed over in shuffled order; collocation matrices pre-screened by their 1-norm condition number (<= 1e5, computed by an own Gauss-Jordan inversion; ill-conditioned draws skipped and counted). Data: random, polynomial of degree < k, Dual / Dual2 with one variable per datum. After csolve: interior sites and end conditions reproduced (also through the independent piecewise-polynomial basis oracle on the returned coefficients), polynomial data reproduced in value and all derivatives at knots, end points, neighbouring floats, midpoints and random points; sensitivity to datum j == value of the float spline solved on the unit vector e_j; Dual / Dual2 abscissae give the spline's own first / second derivative as sensitivities (with non-zero own Hessian of the abscissa); mismatched site counts (fewer sites, fewer or more values than sites, an extra site without least squares - through the core solver and the Python-facing solver of all three spline types) and evaluation before solving are errors; the 3x3 (spline type x abscissa type) table of mapped_value. distinct_nontrivial = distinct (k, layout, knot count) x case.".into()
     }
     fn assumptions(&self) -> Vec<String> {
         vec!["tolerance 1e-9 relative to the summed magnitude |c_i| |B_i| of the terms".into(), "site sets violating Schoenberg-Whitney (singular collocation) are outside the property and are skipped".into()]
@@ -252,6 +253,20 @@ impl Prop for C15 {
                 return;
             }
         };
+        // the solver does not ask for its data sites in any order: one case in three hands the interior sites over
+        // shuffled (the first and last site keep their places - they carry the end conditions); everything below
+        // pairs data with sites by index, so the same checks apply
+        let mut l = l;
+        if (idx / 5) % 3 == 1 && l.tau.len() >= 4 {
+            let m = l.tau.len();
+            let mut inner: Vec<f64> = l.tau[1..m - 1].to_vec();
+            rng.shuffle(&mut inner);
+            if inner.windows(2).any(|w| w[0] > w[1]) {
+                l.tau.splice(1..m - 1, inner);
+                ctx.class("sites:interior-sites-not-in-ascending-order");
+            }
+        }
+        let l = l;
         let n = l.n();
         let m = l.tau.len();
         let bm = l.matrix();
